@@ -100,7 +100,7 @@ func runC06tcp(line string) string {
 	default:
 		cfg.LbPolicy = service.LoadBalancePolicy_ROUND_ROBIN
 	}
-	p, err := proc.New(fmt.Sprintf("c06x%d", port), cfg, hosts)
+	p, err := proc.New(fmt.Sprintf("c06x%d", nextProcSeq()), cfg, hosts)
 	if err != nil {
 		return "NEW-FAILED"
 	}
